@@ -149,6 +149,21 @@ def generate(cfgs=("rwdi",)):
         except cxx2lean.TranslateError as e:
             res["errors"].append("%s: %s" % (fname, e))
     res["sigs"] = sigs
+    # C10: node size table (regenerated by buildlib through tools/gen_node_sizes.py from cmake/get_node_size.cpp)
+    try:
+        nsj = os.path.join(li["inc"], "container_node_sizes_impl.hpp.json")
+        tbl = json.load(open(nsj))
+        rows = []
+        for c in tbl:
+            for a in sorted(tbl[c], key=int):
+                rows.append('  ("%s", %s, %d)' % (c, a, tbl[c][a]))
+        text = HEADER + "\nnamespace MemVerif.Gen\n\n/-- `detail::X_node_size<alignment>`: (container, alignment, base) as generated for this compiler / standard library -/\n" \
+            "def nodeSizeTable : List (String × Nat × Nat) := [\n" + ",\n".join(rows) + "\n]\n\nend MemVerif.Gen\n"
+        write_if_changed(os.path.join(GEN, "NodeSizes.lean"), text)
+        res["files"].append("NodeSizes.lean")
+        res["node_sizes"] = tbl
+    except Exception as e:
+        res["errors"].append("NodeSizes.lean: %s" % e)
     # C13: lock discipline table of allocator_storage (from the AST)
     try:
         lk = gen_locks.generate(repo, incs, defs, GEN)
